@@ -153,6 +153,11 @@ def oracle_parse_locs(pp, gname, mk, s, keep_tabs):
                 d = oracle_linecol(pp, pe.pstr, pe.loc)
                 if d:
                     probs.append("exception line/col: " + d)
+                # the exception's own accessors are the module-level functions at (loc, pstr)
+                want = (pp.lineno(pe.loc, pe.pstr), pp.col(pe.loc, pe.pstr), pp.line(pe.loc, pe.pstr))
+                got = (pe.lineno, pe.col, pe.line)
+                if got != want or pe.column != pe.col:
+                    probs.append(f"exception (lineno, col, line) = {got!r}, lineno()/col()/line() at loc {pe.loc} give {want!r}")
     for st, loc in seen:
         if st != parsed:
             probs.append(f"action got string {st!r}, parsed string is {parsed!r}")
